@@ -398,3 +398,22 @@ CHECKS["C09"] = {
         "an offspring that shares structure with its parent are observed",
     ],
 }
+
+CHECKS["C08"] = {
+    "title": "same seed, same search, within and across processes",
+    "run": std_run,
+    "models": [
+        {"module": "MC_C08", "cfg": "MC_C08_canonical.cfg", "workers": 4},
+        {"module": "MC_C08", "cfg": "MC_C08_setorder.cfg", "workers": 4, "expect_violation": "Agree is violated"},
+    ],
+    "drivers": [{"module": "harness.drv_c08", "trace": "Trace_C08"}],
+    "shards": {"quick": 1, "thorough": 4},
+    "rule": "one trace per search configuration (algorithm x representation x grammar x initialiser, random decider and "
+            "direction): the sequence of programs handed to the fitness function and the returned best, for two runs in "
+            "one process and for fresh interpreters with different PYTHONHASHSEED, allocation padding before the grammar "
+            "classes are defined and import order, merged; digests are computed from the projected structure",
+    "assumptions": [
+        "the adversary (hash seed, addresses) is sampled: 3 (quick) / 5 (thorough) process environments per configuration",
+        "wall-clock budgets are excluded, as the property says",
+    ],
+}
